@@ -195,25 +195,47 @@ pub struct WTrace {
 impl WTrace {
     pub fn to_json(&self) -> Json {
         Json::obj()
-            .with(
-                "events",
-                Json::Arr(
-                    self.events
-                        .iter()
-                        .map(|e| match e {
-                            WEv::Accept(k) => Json::s(&format!("accept:{}", k)),
-                            WEv::AllButOne => Json::s("accept-all-but-one"),
-                            WEv::Intr => Json::s("interrupted"),
-                        })
-                        .collect(),
-                ),
-            )
+            .with("events", Json::Arr(self.events_rle()))
             .with("rest_max", Json::u(self.rest_max))
+    }
+    /// runs of Interrupted are written run-length encoded ("interrupted*1025")
+    fn events_rle(&self) -> Vec<Json> {
+        let mut out: Vec<Json> = Vec::new();
+        let mut run = 0usize;
+        let flush = |out: &mut Vec<Json>, run: &mut usize| {
+            if *run == 1 {
+                out.push(Json::s("interrupted"));
+            } else if *run > 1 {
+                out.push(Json::s(&format!("interrupted*{}", run)));
+            }
+            *run = 0;
+        };
+        for e in &self.events {
+            match e {
+                WEv::Intr => run += 1,
+                WEv::Accept(k) => {
+                    flush(&mut out, &mut run);
+                    out.push(Json::s(&format!("accept:{}", k)));
+                }
+                WEv::AllButOne => {
+                    flush(&mut out, &mut run);
+                    out.push(Json::s("accept-all-but-one"));
+                }
+            }
+        }
+        flush(&mut out, &mut run);
+        out
     }
     pub fn from_json(j: &Json) -> Option<WTrace> {
         let mut events = Vec::new();
         for e in j.arr_of("events")? {
             let s = e.as_str()?;
+            if let Some(n) = s.strip_prefix("interrupted*") {
+                for _ in 0..n.parse::<usize>().ok()? {
+                    events.push(WEv::Intr);
+                }
+                continue;
+            }
             events.push(if s == "interrupted" { WEv::Intr } else if s == "accept-all-but-one" { WEv::AllButOne } else { WEv::Accept(s.strip_prefix("accept:")?.parse().ok()?) });
         }
         Some(WTrace { events, rest_max: j.num_of("rest_max")? as usize })
